@@ -33,6 +33,32 @@ def _stores(body):
                 simplify(z.rvalue(s.rv, 0, ()))
 
 
+def _idx_updates(b):
+    """every value self.idx can receive: (site, target, value) per store, a stored value that is chosen on exclusive branches
+    (`self.idx = match strategy { A => a(), B => b() }`, results of helpers) split into its alternatives, each located at the
+    block that computes it -- so that the guards of that block (the strategy arm, `finished[self.idx]`) qualify it"""
+    from analysis.sym import defs_of
+    out = []
+    z = symbolizer(b)
+
+    def expand(site, t, v, depth=0):
+        c = peel(v)
+        if depth < 4 and isinstance(c, tuple) and c and ((c[0] == 'var' and len(c) > 2) or c[0] == 'phi'):
+            l = c[2] if c[0] == 'var' else c[1]
+            whole, partial = defs_of(b, l)
+            if not partial and len(whole) >= 2 and not any(cfg.innermost_loop(b, d.bb) is not None and
+                                                            cfg.innermost_loop(b, d.bb) is not cfg.innermost_loop(b, site.bb) for d in whole):
+                for d in whole:
+                    dv = simplify(z.rvalue(d.rv, 0, (l,)) if hasattr(d, 'rv') else z.call(d, 0, (l,)))
+                    expand(d, t, dv, depth + 1)
+                return
+        out.append((site, t, v))
+    for s_, t, v in _stores(b):
+        if match(t, SELF_IDX):
+            expand(s_, t, v)
+    return out
+
+
 def _is_advance(v, of):
     """v == (of + 1) % len(self.finished)"""
     return match(core(v), ('bin', 'Rem', ('bin', 'Add', of, Const(1)), Call('Vec::len', SELF_FIN)))
@@ -93,7 +119,7 @@ def r1(ctx):
     ctx.require(len(init) == 1 and _is_advance(init[0][2], SELF_IDX), b, 'scan-start',
                 'scan starts at (self.idx + 1) %% n (round robin moves on)', 'scan start is %s' % (
                     [show_in(b, v) for _, _, v in init]), init[0][0].span if init else hdr_span)
-    fin = [(s, t, v) for s, t, v in _stores(b) if s.bb in arm and match(t, SELF_IDX)]
+    fin = [(s, t, v) for s, t, v in _idx_updates(b) if s.bb in arm]
     ctx.require(len(fin) == 1 and fin[0][0].bb not in loop.blocks and match(core(fin[0][2]), vpat) and
                 all(cfg.dominates(b, loop.header, fin[0][0].bb) for _ in [0]), b, 'scan-result',
                 'self.idx := the candidate found by the scan (after the loop)', None, fin[0][0].span if fin else hdr_span)
@@ -109,90 +135,157 @@ def r1(ctx):
     ctx.require(okaf, af, 'all-finished', 'all_finished() = every flag of self.finished is true', 'all_finished() is %s' % str([show_in(af, v) for v, _ in rv] if q is None else (q[0], show_in(af, q[1]), show_in(af, q[2]))))
 
 
+def _next_rows(ctx):
+    """path table of next(): one row per feasible path from the entry to a return or to the back edge, with reads of self.idx
+    stamped by the number of re-selections (next_idx() calls / stores to self.idx) that precede them on the path"""
+    from analysis import pathx
+    b = ctx.body('<' + G + ' as std::iter::Iterator>::next')
+    cells = {'idx': lambda t: match(t, SELF_IDX)}
+
+    def bumps(ev, pe):
+        if ev[0] == 'store-place' and match(pathx.unstamp(ev[1]), SELF_IDX):
+            return ['idx']
+        if ev[0] == 'call' and (ev[1].callee_res() or '').endswith(G + '::next_idx'):
+            return ['idx']
+        return ()
+    # first iteration: from the entry; later iterations: from the loop header, where every local set before the loop still holds
+    # what it read then (stamped 'pre': older than any re-selection of an earlier iteration)
+    ps = pathx.paths_from(b, 0)
+    for lp in cfg.loops(b):
+        more = pathx.paths_from(b, lp.header)
+        ps = None if ps is None or more is None else ps + more
+    if ps is None:
+        raise AnchorMissing('paths of next() (too many)')
+    rows = []
+    for p, end in ps:
+        if end[0] == 'exit':
+            continue
+        pe = pathx.eval_versioned(b, p, cells, bumps)
+        if pe is None:
+            continue
+        row = {'pe': pe, 'end': end, 'path': p}
+        calls = [e for e in pe.events if e[0] == 'call']
+        row['pulls'] = [e for e in calls if (e[1].callee_res() or '').endswith('::next') and has(pathx.unstamp(e[2][0]), ('field', ('arg', 1, ANY), 'generators'))]
+        row['allfin'] = [e for e in calls if (e[1].callee_res() or '').endswith(G + '::all_finished')]
+        row['select'] = [e for e in calls if (e[1].callee_res() or '').endswith(G + '::next_idx')]
+        row['marks'] = [e for e in pe.events if e[0] == 'store-place' and match(core(pathx.unstamp(e[1])), ('index', SELF_FIN, ANY))]
+        arm = None
+        if row['pulls']:
+            res = nosite(row['pulls'][0][3])
+            for t, names in pe.variants:
+                if nosite(peel(t)) == res and len(names) == 1:
+                    arm = list(names)[0]
+        row['arm'] = arm
+        row['ret'] = pe.env.get(0) if end[0] == 'return' else None
+        rows.append(row)
+    if not rows:
+        raise AnchorMissing('feasible paths of next()')
+    return b, rows
+
+
+def _at_nodes(t):
+    out = []
+
+    def rec(x):
+        if isinstance(x, tuple) and x:
+            if x[0] == 'at':
+                out.append(x)
+                return
+            for y in x:
+                rec(y)
+    rec(t)
+    return out
+
+
+def _pos(pe, ev):
+    return pe.events.index(ev)
+
+
 @rule('C07', 'R-C07-2', 'T1 ORDER',
       'next(): an exhausted source is marked finished before all_finished()/next_idx() are consulted; None is returned '
       'only when all sources are finished')
 def r2(ctx):
-    b = ctx.body('<' + G + ' as std::iter::Iterator>::next')
-    pulls = [t for t in b.calls(r'::next$') if has(sym(b, t.args[0]), ('field', ('arg', 1, ANY), 'generators'))]
-    if len(pulls) != 1:
-        raise AnchorMissing('the pull `self.generators[self.idx].next()` (found %d)' % len(pulls))
-    pull = pulls[0]
-    ctx.require(match(core(sym(b, pull.args[0])), ('index', ('field', ('arg', 1, ANY), 'generators'), SELF_IDX)), b,
-                'pull-current', 'the pull is from generators[self.idx]', None, pull.span)
-    marks = [(s, t, v) for s, t, v in _stores(b) if match(core(t), ('index', SELF_FIN, ANY))]
-    if len(marks) != 1:
-        ctx.fail(b, 'mark-finished', 'expected exactly one store to self.finished[..], found %d' % len(marks))
-        return
-    s, t, v = marks[0]
-    ctx.require(match(core(t), ('index', SELF_FIN, SELF_IDX)) and v[0] == 'const' and v[2] == 1, b, 'mark-finished',
-                'finished[self.idx] = true', 'mark is %s := %s' % (show_in(b, t), show_in(b, v)), s.span)
-    none_edge = any(match(tt, Call('::next', ANY)) and names == {'None'} for tt, names in variant_facts_at(b, s.bb))
-    ctx.require(none_edge, b, 'mark-on-none', 'the mark happens on the None arm of the pull', None, s.span)
-    for callee in ('all_finished', 'next_idx'):
-        for c in b.calls(G + '::' + callee + '$'):
-            on_none = any(match(tt, Call('::next', ANY)) and names == {'None'} for tt, names in variant_facts_at(b, c.bb))
-            if on_none:
-                ctx.require(cfg.dominates(b, s.bb, c.bb), b, 'mark-before|' + callee,
-                            'finished[self.idx] = true dominates %s() on the None arm' % callee, None, c.span)
-    for v, bb in ret_values(b):
-        if v[0] == 'agg' and v[2].endswith('Option::None'):
-            good = any(pol is True and match(tt, Call(G + '::all_finished', ANY)) for tt, pol, g in atoms_at(b, bb))
-            ctx.require(good, b, 'none-only-when-all-finished', 'None is returned only under all_finished()', None,
-                        b.blocks[bb].term.span)
-    # next_idx on the None arm is called under !all_finished (its precondition)
-    for c in b.calls(G + '::next_idx$'):
-        on_none = any(match(tt, Call('::next', ANY)) and names == {'None'} for tt, names in variant_facts_at(b, c.bb))
-        if on_none:
-            good = any(pol is False and match(tt, Call(G + '::all_finished', ANY)) for tt, pol, g in atoms_at(b, c.bb))
-            ctx.require(good, b, 'reselect-precondition', 'after exhausting a source next_idx() runs under !all_finished()', None, c.span)
+    from analysis import pathx
+    b, rows = _next_rows(ctx)
+    where = lambda e: e[1].span if e[0] == 'call' else e[3].span
+    n_none = 0
+    for row in rows:
+        pe = row['pe']
+        if len(row['pulls']) != 1:
+            ctx.fail(b, 'one-pull-per-path', 'a path through next() pulls from the sources %d times' % len(row['pulls']))
+            continue
+        pull = row['pulls'][0]
+        ats = _at_nodes(pull[2][0])
+        src = core(pathx.unstamp(pull[2][0]))
+        ctx.require(len(ats) == 1 and match(src, ('index', ('field', ('arg', 1, ANY), 'generators'), SELF_IDX)), b, 'pull-current',
+                    'the pull is from generators[self.idx]', 'the pull is from %s' % show_in(b, pathx.unstamp(pull[2][0])), where(pull))
+        if row['arm'] != 'None':
+            continue
+        n_none += 1
+        cur = ats[0] if ats else None
+        marks = row['marks']
+        okm = len(marks) == 1 and _at_nodes(marks[0][1]) == [cur] and match(core(pathx.unstamp(marks[0][1])), ('index', SELF_FIN, SELF_IDX)) and \
+            core(marks[0][2])[0] == 'const' and core(marks[0][2])[2] == 1
+        ctx.require(okm, b, 'mark-finished', 'on exhaustion finished[self.idx] = true for the source that was pulled',
+                    'on the None arm of the pull the stores to self.finished are %s' % [show_in(b, pathx.unstamp(m[1])) + ' := ' + show_in(b, pathx.unstamp(m[2])) for m in marks],
+                    where(marks[0]) if marks else where(pull))
+        if not okm:
+            continue
+        for e in row['allfin'] + row['select']:
+            ctx.require(_pos(pe, marks[0]) < _pos(pe, e), b, 'mark-before|' + e[1].callee_res().rsplit('::', 1)[-1],
+                        'finished[self.idx] = true precedes %s() on the None arm' % e[1].callee_res().rsplit('::', 1)[-1], None, where(e))
+        fin = [pol for t, pol in pe.atoms if match(core(pathx.unstamp(t)), Call(G + '::all_finished', ANY))]
+        if row['end'][0] == 'return':
+            r = peel(row['ret']) if row['ret'] is not None else None
+            isnone = r is not None and r[0] == 'agg' and r[2].endswith('Option::None')
+            ctx.require(isnone and fin == [True], b, 'none-only-when-all-finished', 'None is returned only under all_finished()',
+                        'after an exhausted source next() returns %s under all_finished() = %s' % (show_in(b, pathx.unstamp(row['ret'])) if row['ret'] is not None else '?', fin),
+                        b.blocks[row['end'][1]].term.span)
+        else:
+            ctx.require(len(row['select']) == 1 and fin == [False] and _pos(pe, row['allfin'][0]) < _pos(pe, row['select'][0]), b, 'reselect-precondition',
+                        'after exhausting a source the loop continues with next_idx(), called under !all_finished()',
+                        'after exhausting a source the loop continues with %d next_idx() calls under all_finished() = %s' % (len(row['select']), fin), where(pull))
+    ctx.require(n_none >= 2, b, 'none-arm-paths', 'the None arm of the pull either ends the stream or re-selects and continues', 'None-arm paths found: %d' % n_none)
 
 
 @rule('C07', 'R-C07-3', 'T1 ORDER (no write between)',
       'the yielded pair is (item pulled from generators[self.idx], self.idx) built BEFORE the next source is selected')
 def r3(ctx):
-    b = ctx.body('<' + G + ' as std::iter::Iterator>::next')
-    somes = [(v, bb) for v, bb in ret_values(b) if v[0] == 'agg' and v[2].endswith('Option::Some')]
-    if len(somes) != 1:
-        raise AnchorMissing('single Some(..) return of next()')
-    v, bb = somes[0]
-    val = v[3][0]
-    good = val[0] == 'agg' and val[1] == 'tuple' and len(val[3]) == 2 and \
-        match(core(val[3][0]), Call('::next', ('index', ('field', ('arg', 1, ANY), 'generators'), SELF_IDX))) and \
-        match(core(val[3][1]), SELF_IDX)
-    somes_tuple_ok = good
-    ctx.require(good, b, 'tag', 'yielded value = (pulled item, self.idx)', 'yielded value is %s' % show_in(b, val),
-                b.blocks[bb].term.span)
-    # the tuple is built before next_idx(): find the aggregate statement
-    tup = [s for s in b.stmts() if s.kind == 'assign' and s.rv.kind == 'agg' and s.rv.agg == 'tuple' and len(s.rv.ops) == 2
-           and 'usize' in b.local_ty(s.lhs.local)]
-    if len(tup) != 1:
-        raise AnchorMissing('construction of the (item, idx) pair')
-    ts = tup[0]
-    sel = [c for c in b.calls(G + '::next_idx$')]
-    pull = [t for t in b.calls(r'::next$') if has(sym(b, t.args[0]), ('field', ('arg', 1, ANY), 'generators'))][0]
-    # no selection between the pull and the tagging: the pair block is not reachable from a next_idx call
-    # without passing the pull again
-    bad = [c for c in sel if ts.bb in cfg.reach_from_succ(b, c.bb, removed_blocks=[pull.bb])]
-    same_block_before = [c for c in sel if c.bb == ts.bb]   # call is the terminator, statement precedes it: fine
-    ctx.require(not bad, b, 'tag-before-select', 'no source re-selection between the pull and the tagging of the item',
-                'the source index is re-selected (line %d) between the pull and the construction of the (item, index) pair'
-                % (bad[0].span['line'] if bad else 0), ts.span)
-    # the index component must be READ after the pull (a copy of self.idx taken before the exhaustion handling is stale)
-    for st_, pl_ in [(ts, ts.rv.ops[1].place)] if (ts.rv.ops[1].place is not None and ts.rv.ops[1].place.proj) else memory_reads(b, ts.rv.ops[1]):
-        if not match(sym(b, pl_), SELF_IDX):
+    from analysis import pathx
+    b, rows = _next_rows(ctx)
+    n_some = 0
+    for row in rows:
+        pe = row['pe']
+        if row['arm'] != 'Some' or len(row['pulls']) != 1:
             continue
-        # stale iff a re-selection can happen after this read and before the pull that produced the item (without the index
-        # being read again): path read -> next_idx() -> pull that avoids the read
-        stale = [c for c in sel if c.bb in cfg.reach_from_succ(b, st_.bb) | ({st_.bb} if c.bb == st_.bb else set()) and
-                 pull.bb in cfg.reach_from_succ(b, c.bb, removed_blocks=[st_.bb])]
-        fresh = not stale
-        ctx.require(fresh, b, 'tag-read-after-pull',
-                    'the source index stored in the pair is read (line %d) after the pull that produced the item' % st_.span['line'],
-                    'the source index stored in the pair is read at line %d, before the pull / before a possible re-selection: '
-                    'items pulled after an exhausted source are tagged with the old source' % st_.span['line'], st_.span)
-    after = [c for c in sel if c.bb in cfg.reach(b, ts.bb) and any(names == {'Some'} for tt, names in variant_facts_at(b, c.bb))]
-    ctx.require(len(after) >= 1, b, 'select-after-yield', 'after tagging, the next source is selected (next_idx())', None, ts.span)
+        n_some += 1
+        pull = row['pulls'][0]
+        ats = _at_nodes(pull[2][0])
+        cur = ats[0] if ats else None
+        if row['end'][0] != 'return':
+            ctx.fail(b, 'yield', 'a pulled item does not leave next(): the loop continues with it', pull[1].span)
+            continue
+        r = peel(row['ret'])
+        val = peel(r[3][0]) if r[0] == 'agg' and r[2].endswith('Option::Some') and r[3] else None
+        good = val is not None and val[0] == 'agg' and val[1] == 'tuple' and len(val[3]) == 2
+        item_ok = good and nosite(core(pathx.unstamp(val[3][0]))) == nosite(core(pathx.unstamp(pull[3])))
+        tag = _at_nodes(val[3][1]) if good else []
+        tag_is_idx = good and len(tag) == 1 and match(core(pathx.unstamp(val[3][1])), SELF_IDX)
+        ctx.require(good and item_ok and tag_is_idx, b, 'tag', 'yielded value = (pulled item, self.idx)',
+                    'yielded value is %s' % show_in(b, pathx.unstamp(row['ret'])), b.blocks[row['end'][1]].term.span)
+        if good and tag_is_idx:
+            fresh = tag[0] == cur
+            why = ''
+            if not fresh and cur is not None:
+                why = 'the index in the pair is self.idx as of %s re-selection(s), the pull used self.idx as of %s' % (tag[0][2], cur[2])
+            ctx.require(fresh, b, 'tag-before-select', 'the index in the pair is the self.idx the pull used (no re-selection in between, no stale copy)',
+                        'the source index is re-selected between the pull and the construction of the (item, index) pair, or read before an earlier '
+                        're-selection: ' + why, b.blocks[row['end'][1]].term.span)
+        ctx.require(len(row['select']) >= 1 and all(_pos(pe, pull) < _pos(pe, e) for e in row['select']), b, 'select-after-yield',
+                    'after the pull, the next source is selected (next_idx())', None, pull[1].span)
+        ctx.require(not row['marks'], b, 'no-mark-on-some', 'a source that produced an item is not marked finished', None, pull[1].span)
+    ctx.require(n_some >= 1, b, 'some-arm-paths', 'the Some arm of the pull yields the item', 'Some-arm paths found: %d' % n_some)
+    sel = [c for c in b.calls(G + '::next_idx$')]
     # ownership: the pulled item is never dropped on a normal path
     drops = [t for t in b.terms('drop') if 'TrainData' in t.raw['ty']]
     ctx.require(not drops, b, 'no-item-drop', 'no normal-path drop of a pulled item in next()',
@@ -215,7 +308,8 @@ def r5(ctx):
     arm = _arm_blocks(b, 'Sequential')
     if not arm:
         raise AnchorMissing('Sequential arm of next_idx')
-    st = [(s, t, v) for s, t, v in _stores(b) if s.bb in arm and match(t, SELF_IDX)]
+    # a value equal to the current index leaves the selection where it is
+    st = [(s, t, v) for s, t, v in _idx_updates(b) if s.bb in arm and not match(core(v), SELF_IDX)]
     if len(st) != 1:
         ctx.fail(b, 'sequential-store', 'expected one update of self.idx in the Sequential arm, found %d' % len(st))
         return
@@ -238,7 +332,7 @@ def r6(ctx):
     ctx.require(match(core(sym(b, smp[0].args[0])), ('field', ('arg', 1, ANY), 'rng')), b, 'weighted-rng',
                 'the sample is drawn from self.rng', 'sample is drawn from %s' % show_in(b, sym(b, smp[0].args[0])), smp[0].span)
     from analysis.seq import seq_of, ITEM
-    st = [(s, t, v) for s, t, v in _stores(b) if s.bb in arm and match(t, SELF_IDX)]
+    st = [(s, t, v) for s, t, v in _idx_updates(b) if s.bb in arm]
     unfinished = lambda sg: sg.kind == 'each' and match(core(sg.src), Call('Iterator::enumerate', SELF_FIN)) and \
         len(sg.conds) == 1 and sg.conds[0][1] is False and core(sg.conds[0][0]) == ('field', ITEM, 1)
     good = False
